@@ -183,11 +183,10 @@ def queries(tier):
     qs += [pred(*x, to=600) for x in pred_selected(tier)]
     qs += [quant(a, b) for a, b in ((4, 4), (8, 8), (9, 10), (13, 16), (21, 27), (40, 48), (83, 8), (83, 97), (160, 212), (255, 311), (400, 500), (640, 800), (1000, 1200), (1336, 1336), (4, 1336), (1336, 4))]
     qs += [quant(a, b, k) for k in (1, 2) for a, b in ((4, 4), (83, 8), (160, 212), (640, 800), (1336, 1336))]
-    if tier == "probe":
-        return [sse_sparse(28, 1, 6, 4, 600), sse_sparse(20, 1, 4, 4, 600)]
     if tier == "thorough":
         qs += [conv(w) for w in (1, 2, 3, 5, 7, 12, 16, 17, 31, 33, 48, 63, 65, 72, 96, 128)]
         qs += [quant(9, 10, 1), quant(9, 10, 2), quant(21, 27, 1), quant(21, 27, 2)]
+        qs += [sse_sparse(w, 1, w // 4 - 1, 4, 1800) for w in (12, 20, 24, 28)]   # the masked tail paths (area_width % 32 = 12/20/24/28), last 4 columns symbolic; measured 307 s (20x1) / 522 s (28x1) on a loaded machine
         qs += [sse_sparse(w, 2, g) for w in (8, 16) for g in range(w * 2 // 4)]  # measured: 61 s (8x2) / 101 s (16x2) per query; 32x2 does not finish in 300 s
         qs += [elem(k, w, 8, 900) for k in (1, 2, 3, 4, 5) for w in (4, 8, 16, 32, 64)] + [elem(k, 128, 8, 900) for k in (1, 4, 5)]   # 16-bit residual kernels at 128x8 did not finish in 300 s under load
     return qs
